@@ -1115,6 +1115,9 @@ func (r *Run) globalLoc(obj *types.Var) *Loc {
 						r.ctx.Assert(Not(Eq(t, prev)))
 					}
 					r.errGlobals = append(r.errGlobals, t)
+					// created during initialisation: it exists before the function under verification starts
+					r.ctx.DeclareOnce("top.entry", "(declare-const top.entry Int)")
+					r.ctx.Assert(Le(ifVal(t), Term{"top.entry", SInt}))
 					if inRepo {
 						r.ctx.Assert(Eq(ifTag(t), r.tagByName("*errors.errorString")))
 					}
